@@ -14,6 +14,7 @@
 (*          <<"not",a>> <<"neg",a>> <<"isnull",a>> <<"notnull",a>> <<"castb",a>>        *)
 (*          <<"case",c,a,b>>   CASE WHEN c THEN a ELSE b END               *)
 (*          <<"in",a,<<v..>>,neg>>       a [NOT] IN (constants)            *)
+(*          <<"inx",a,<<e..>>,neg>>      a [NOT] IN (expressions)          *)
 (*          <<"insub",a,q,neg>> <<"exists",q,neg>> <<"scalar",q>>          *)
 (*          <<"agg",f,a>>      f: count* count sum min max countd (group)  *)
 (* From     <<"t",name,width>> | <<"join",jt,l,r,on,wl,wr>>                *)
@@ -176,6 +177,13 @@ Ev(e, env, grp, db) ==
            LET v == Ev(e[2], env, grp, db)
                hit == \E i \in DOMAIN e[3] : e[3][i] = v
                unk == IsNull(v) \/ \E i \in DOMAIN e[3] : IsNull(e[3][i])
+               r == IF IsNull(v) THEN Null ELSE IF hit THEN B(TRUE) ELSE IF unk THEN Null ELSE B(FALSE)
+           IN IF e[4] THEN Not3(r) ELSE r
+      [] k = "inx" ->      \* IN over a list of expressions: the disjunction of the equalities
+           LET v  == Ev(e[2], env, grp, db)
+               vs == [i \in DOMAIN e[3] |-> Ev(e[3][i], env, grp, db)]
+               hit == \E i \in DOMAIN vs : ~IsNull(vs[i]) /\ vs[i] = v
+               unk == \E i \in DOMAIN vs : IsNull(vs[i])
                r == IF IsNull(v) THEN Null ELSE IF hit THEN B(TRUE) ELSE IF unk THEN Null ELSE B(FALSE)
            IN IF e[4] THEN Not3(r) ELSE r
       [] k = "insub" ->
